@@ -8,12 +8,12 @@ from harness.common import Ck, coq_Z_list, coq_list
 from translate import c08_sites
 
 MANIFEST = dict(
-    technique='Rocq proof (allocator refinement to a finite set, lifecycle NoDup invariants by induction over histories of several maps incl. copy/parse/collapse, nav-node ID lifecycle, fixup indexes) + ast site census + vm_compute correspondences',
-    text='Theorems in Props/C08.v: the IDMan scan terminates and returns a positive unused ID keeping the search_pos invariant; from every invariant state IDMan is observationally equal to a plain finite set that hands out the desired ID if positive and free, else the least free positive ID (search_pos is unobservable); for every history over any number of maps of construction with arbitrary desired IDs, copy() within and across maps, removal, re-adding, destruction, VMF.parse of documents with colliding/missing/non-positive IDs and collapse_one, the existing objects of one kind that belong to one map have pairwise distinct positive IDs, provided IDs are released only by destructors and every copy site passes the destination map down; nav-node IDs held by existing entities are distinct and positive after every history of key set/delete/copy/remove/re-add/destroy provided remove_ent does not release them; fixup indexes stay distinct and positive. The premises (release sites, ID stores, map argument of every constructor/copy call inside copy() methods and collapse_one, node-ID shapes, fixup acceptance test / deferral / start index, hint guard) are regenerated from vmf.py/instancing.py on every run and kernel-checked; IDMan, EntityFixup, the entity lifecycle, three-map histories of entities/brushes/faces, node-ID histories and VMF.parse results are compared with the models on random inputs (exact IDs); histories over all ID kinds including collapse_one are searched on real VMF objects.',
-    note='Trusted: Coq kernel + vm_compute, translate/c08_sites.py (which call sites matter: copy() methods of the five ID classes and collapse_one; other functions that build objects from a foreign map are not in the census), hand models SM/IdMan.v, SM/IdLife.v, SM/IdWorld.v, SM/IdNode.v (tied by differential runs), CPython refcount/gc for __del__ timing. The kinds are independent single-kind models (each class uses the manager of its kind: census obligation). Node IDs reserved by Instance.fixup_key are never released (leak, not modelled). Direct writes to Entity._keys / the deprecated Entity.keys dict bypass the node-ID rule. Maps opened with preserve_ids=True are exempt by definition.',
+    technique='Rocq proof (allocator refinement to a finite set, lifecycle NoDup invariants by induction over histories of several maps incl. copy/parse/collapse, nested Entity/Solid/Side world with bundled events, nav-node ID lifecycle, fixup indexes over whole histories) + ast site censuses with semantic normalisation + vm_compute correspondences',
+    text='Theorems in Props/C08.v: the IDMan scan terminates and returns a positive unused ID keeping the search_pos invariant; from every invariant state IDMan is observationally equal to a plain finite set that hands out the desired ID if positive and free, else the least free positive ID (search_pos is unobservable); for every history over any number of maps of construction with arbitrary desired IDs, copy() within and across maps, removal, re-adding, destruction, VMF.parse of documents with colliding/missing/non-positive IDs and collapse_one, the existing objects of one kind that belong to one map have pairwise distinct positive IDs, provided IDs are released only by destructors and every copy site passes the destination map down; the same for entities, their brushes and the faces of those as ONE world whose events are the bundles of constructor/copy/remove/destructor calls made for a top-level object and its parts (order and desired IDs of the nested calls are part of the model); nav-node IDs held by existing entities are distinct and positive after every history of key set/delete/copy/remove/re-add/destroy provided remove_ent does not release them and copies register their node ID; replaceNN indexes of one entity are distinct and positive after the constructor on any list and every sequence of set/setdefault/update, del/pop, clear, rebuild by Entity.copy and copy/deepcopy/pickle. The premises (release sites, ID stores, map argument of every constructor/copy call inside copy() methods and collapse_one, every write into Entity._keys and into the fixup index table, node-ID shapes, fixup acceptance test / deferral / start index, hint guard) are regenerated from the source on every run by a fail-closed translator that normalises names, test spellings, branch order, single-use locals, helper functions and loop forms, and are kernel-checked; IDMan, EntityFixup histories, the entity lifecycle, three-map histories of entities/brushes/faces/brush groups/visgroups (per kind and as bundled events), node-ID histories and VMF.parse results are compared with the models on random inputs (exact IDs); histories over all ID kinds including collapse_one are searched on real VMF objects.',
+    note='Trusted: Coq kernel + vm_compute, translate/c08_sites.py, c08_keys.py, c08_norm.py (which call sites matter: copy() methods of the five ID classes and collapse_one; other functions that build objects from a foreign map are not in the census), hand models SM/IdMan.v, SM/IdLife.v, SM/IdFixupHist.v, SM/IdWorld.v, SM/IdNest.v, SM/IdNode.v (tied by differential runs), CPython refcount/gc for __del__ timing. Brush groups and visgroups are independent single-kind models (each class uses the manager of its kind: census obligation); their IDs are never released (no destructor: leak, modelled as such). The real collapse_one is modelled only as a list of copies (which objects it copies and the keyvalue rewriting are searched, not modelled). Node IDs reserved by Instance.fixup_key are never released (leak, not modelled). The deprecated Entity.keys dict (returned by reference) and a table handed to EntityFixup.__setstate__ bypass the censuses (listed as exposures). Maps opened with preserve_ids=True are exempt by definition.',
 )
 
-IMPORTS = ['SV.SM.IdMan', 'SV.SM.IdManSpec', 'SV.SM.IdLife', 'SV.SM.IdFixupHist', 'SV.SM.IdWorld', 'SV.SM.IdNode', 'SV.Gen.IdSites_gen', 'SV.Props.C08',
+IMPORTS = ['SV.SM.IdMan', 'SV.SM.IdManSpec', 'SV.SM.IdLife', 'SV.SM.IdFixupHist', 'SV.SM.IdWorld', 'SV.SM.IdNest', 'SV.SM.IdNode', 'SV.Gen.IdSites_gen', 'SV.Props.C08',
            'Coq.ZArith.ZArith', 'Coq.Lists.List']
 PRE = '''Import ListNotations. Open Scope Z_scope.
 Fixpoint zl_eqb (a b : list Z) : bool := match a, b with [] , [] => true | x :: a', y :: b' => Z.eqb x y && zl_eqb a' b' | _, _ => false end.
@@ -621,7 +621,15 @@ Definition wobs (w : wworld) : list Z :=
 Definition wprobe (w : wworld) (m : nat) : Z := match get_id (-1) (man_of w m) with Some (i, _) => i | None => -3 end.
 Definition wfull (k : kind) (es : list wev) : list Z :=
   let w := wrun (release_on_remove k) (copy_to_dest k) es in wobs w ++ [wprobe w 0%nat; wprobe w 1%nat; wprobe w 2%nat].
+Definition wobs3 (w : wworld) : list Z := wobs w ++ [wprobe w 0%nat; wprobe w 1%nat; wprobe w 2%nat].
+Definition tfull (es : list tev) : list Z * list Z * list Z :=
+  let w := trun (release_on_remove KEnt) (release_on_remove KSolid) (release_on_remove KFace)
+                (copy_to_dest KEnt) (copy_to_dest KSolid) (copy_to_dest KFace) es in
+  (wobs3 (tE w), wobs3 (tS w), wobs3 (tF w)).
 '''
+
+
+WORLD_KINDS = ('KEnt', 'KSolid', 'KFace', 'KGroup', 'KVis')
 
 
 class _Tracked:
@@ -650,14 +658,17 @@ def gen_world_case(rng: random.Random, n_ev: int):
 
     Returns ({kind: [event strings]}, {kind: expected observation list}, description, per-map ID scans).  Every
     nested object gets its own events in the stream of its kind, in the order the implementation constructs them."""
-    from srctools.vmf import VMF, Entity, Solid, Side
+    from srctools.vmf import VMF, Entity, Solid, Side, EntityGroup, VisGroup
     from srctools.math import Vec
     maps = [VMF(), VMF(), VMF()]
-    ev: dict[str, list[str]] = {'KEnt': [], 'KSolid': [], 'KFace': []}
-    tr: dict[str, list[_Tracked]] = {'KEnt': [], 'KSolid': [], 'KFace': []}
+    ev: dict = {k: [] for k in WORLD_KINDS}
+    tr: dict[str, list[_Tracked]] = {k: [] for k in WORLD_KINDS}
     face_dels: list[int] = []             # face IDs released by Side.__del__ (in whichever map)
+    tev: list[str] = []                   # the same history as bundled events on top-level objects (SM/IdNest.v)
+    nest_ok = True
     for m, v in enumerate(maps):          # the constructor's worldspawn takes an entity ID in every map
         ev['KEnt'].append(f'WCreate {m}%nat (-1)')
+        tev.append(f'TCreateEnt {m}%nat (-1) []')      # top-level objects 0..2 of the nested model
         tr['KEnt'].append(_Tracked(v.spawn, m))
 
         def spy(e, orig=v.face_id.discard):
@@ -693,7 +704,108 @@ def gen_world_case(rng: random.Random, n_ev: int):
         return (('KEnt', [t['ent']] if t['ent'] is not None else []), ('KSolid', [s for s, _ in t['solids']]),
                 ('KFace', [f for _, fs in t['solids'] for f in fs]))
 
+    # brush groups and visgroups (round 3).  No destructor releases their IDs: dropping the last reference is not an
+    # event of the model, the ID stays taken (leak) -- the probes of the next free ID at the end observe exactly that.
+    gtops: list[dict] = []      # kind 'group': tree = (index, []); kind 'vis': tree = (index, [child trees])
+
+    def new_vis(m, d, depth):
+        kids = [new_vis(m, rng.choice([-1, -1, 1, 2, 3]), depth + 1) for _ in range(rng.choice([0, 0, 1, 2]) if depth < 2 else 0)]
+        v = VisGroup(maps[m], f'vis{len(tr["KVis"])}', d, Vec(255, 255, 255), [k[0] for k in kids])
+        ev['KVis'].append(f'WCreate {m}%nat {_zs(d)}')
+        tr['KVis'].append(_Tracked(v, m))
+        return v, (len(tr['KVis']) - 1, [k[1] for k in kids])
+
+    def track_vis_copy(src_tree, cobj, dest, d):
+        # VisGroup.copy builds the copies of the children (fresh IDs) before the constructor of the copy runs
+        kids = [track_vis_copy(st, cc, dest, -1) for st, cc in zip(src_tree[1], cobj.child_groups)]
+        return track_copy('KVis', src_tree[0], cobj, dest, d), kids
+
+    def flat(tree):
+        for k in tree[1]:
+            yield from flat(k)
+        yield tree[0]
+
+    def listed(t, on: bool, emit: bool = True):
+        h = maps[t['home']]
+        if t['kind'] == 'group':
+            if on:
+                h.groups[t['obj'].id] = t['obj']
+            else:
+                for key in [key for key, g in h.groups.items() if g is t['obj']]:
+                    del h.groups[key]
+        elif on:
+            h.vis_tree.append(t['obj'])
+        else:
+            h.vis_tree[:] = [x for x in h.vis_tree if x is not t['obj']]
+        t['inmap'] = on
+        kind = 'KGroup' if t['kind'] == 'group' else 'KVis'
+        for i in flat(t['tree']):
+            if emit:
+                ev[kind].append(f'{"WReAdd" if on else "WRemove"} {i}%nat')
+            tr[kind][i].inmap = on
+
+    def group_event():
+        r = rng.random()
+        glive = [t for t in gtops if t['obj'] is not None]
+        if r < 0.40 or not glive:
+            m = rng.randrange(3)
+            d = rng.choice([-1, -1, 0, -3, 1, 2, 2, 3, 5])
+            if rng.random() < 0.5:
+                g = EntityGroup(maps[m], d)
+                ev['KGroup'].append(f'WCreate {m}%nat {_zs(d)}')
+                tr['KGroup'].append(_Tracked(g, m))
+                t = {'kind': 'group', 'obj': g, 'tree': (len(tr['KGroup']) - 1, []), 'home': m, 'inmap': False}
+                maps[m].groups[g.id] = g
+            else:
+                v, tree = new_vis(m, d, 0)
+                t = {'kind': 'vis', 'obj': v, 'tree': tree, 'home': m, 'inmap': False}
+                maps[m].vis_tree.append(v)
+            t['inmap'] = True
+            gtops.append(t)
+            desc.append(('gcreate', t['kind'], m, d, len(list(flat(t['tree'])))))
+        elif r < 0.70:
+            t = rng.choice(glive)
+            dest = rng.randrange(3)
+            explicit = dest != t['home'] or rng.random() < 0.5
+            if not explicit:
+                dest = t['home']
+            if t['kind'] == 'group':
+                d = tr['KGroup'][t['tree'][0]].id          # EntityGroup.copy asks for the source's own ID
+                c = t['obj'].copy(maps[dest]) if explicit else t['obj'].copy()
+                tree = (track_copy('KGroup', t['tree'][0], c, dest, d), [])
+            else:
+                d = rng.choice([-1, -1, 2, 4])
+                c = t['obj'].copy(maps[dest] if explicit else None, {}, d) if rng.random() < 0.7 else \
+                    t['obj'].copy(vmf=maps[dest] if explicit else None, des_id=d)
+                tree = track_vis_copy(t['tree'], c, dest, d)
+            nt = {'kind': t['kind'], 'obj': c, 'tree': tree, 'home': dest, 'inmap': False}
+            listed(nt, True, emit=False)       # WCopy lists the copy in the destination map
+            gtops.append(nt)
+            desc.append(('gcopy', t['kind'], dest, d, explicit))
+        elif r < 0.85:
+            t = rng.choice(glive)
+            listed(t, not t['inmap'])
+            desc.append(('gremove' if not t['inmap'] else 'greadd', t['kind']))
+        else:
+            off = [t for t in glive if not t['inmap']]
+            if not off:
+                return
+            t = rng.choice(off)
+            if rng.random() < 0.5:
+                listed(t, True)
+                desc.append(('greadd', t['kind']))
+                return
+            t['obj'] = None
+            kind = 'KGroup' if t['kind'] == 'group' else 'KVis'
+            for i in flat(t['tree']):
+                tr[kind][i].ref = None
+            gc.collect(0)
+            desc.append(('gforget', t['kind']))
+
     for _ in range(n_ev):
+        if rng.random() < 0.25:
+            group_event()
+            continue
         r = rng.random()
         live = [t for t in tops if t['obj'] is not None]
         if r < 0.30 or not live:
@@ -706,13 +818,18 @@ def gen_world_case(rng: random.Random, n_ev: int):
                 tr['KEnt'].append(_Tracked(o, m))
                 maps[m].add_ent(o)
                 tops.append({'kind': 'ent', 'obj': o, 'ent': len(tr['KEnt']) - 1, 'solids': [], 'home': m, 'inmap': True})
+                tev.append(f'TCreateEnt {m}%nat {_zs(d)} []')
             elif what == 'solid':
                 fds = [rng.choice([-1, 0, 1, 2, 4, d]) for _ in range(2)]
                 o, si = new_solid(m, d, fds)
+                tev.append(f'TCreateBrush {m}%nat ({_zs(d)}, {coq_list(_zs(x) for x in fds)})')
                 maps[m].add_brush(o)
                 tops.append({'kind': 'solid', 'obj': o, 'ent': None, 'solids': [si], 'home': m, 'inmap': True})
             else:
-                so, si = new_solid(m, rng.choice([-1, 1, 2]), [-1, rng.choice([-1, 1, 3])])
+                sd = rng.choice([-1, 1, 2])
+                fds = [-1, rng.choice([-1, 1, 3])]
+                so, si = new_solid(m, sd, fds)
+                tev.append(f'TCreateEnt {m}%nat {_zs(d)} [({_zs(sd)}, {coq_list(_zs(x) for x in fds)})]')
                 o = Entity(maps[m], {'classname': 'func_detail'}, ent_id=d, solids=[so])
                 ev['KEnt'].append(f'WCreate {m}%nat {_zs(d)}')
                 tr['KEnt'].append(_Tracked(o, m))
@@ -745,6 +862,7 @@ def gen_world_case(rng: random.Random, n_ev: int):
                 maps[dest].add_brush(c)
             tops.append(nt)
             desc.append(('copy', tops.index(t), dest, d, explicit))
+            tev.append(f'TCopy {tops.index(t) + 3}%nat {dest}%nat {_zs(d)} {"true" if explicit else "false"}')
             c = csolids = cs = cf = None
         elif r < 0.68:
             t = rng.choice(live)
@@ -757,6 +875,7 @@ def gen_world_case(rng: random.Random, n_ev: int):
                     ev[kind].append(f'WRemove {i}%nat')
                     tr[kind][i].inmap = False
             desc.append(('remove', tops.index(t)))
+            tev.append(f'TRemove {tops.index(t) + 3}%nat')
         elif r < 0.80:
             t = rng.choice(live)
             if t['inmap']:
@@ -771,6 +890,7 @@ def gen_world_case(rng: random.Random, n_ev: int):
                     ev[kind].append(f'WReAdd {i}%nat')
                     tr[kind][i].inmap = True
             desc.append(('readd', tops.index(t)))
+            tev.append(f'TReAdd {tops.index(t) + 3}%nat')
         else:
             t = rng.choice(live)
             if t['inmap']:
@@ -794,11 +914,13 @@ def gen_world_case(rng: random.Random, n_ev: int):
                         tr[kind][i].inmap = False
                     else:
                         desc.append(('still-referenced', kind, i))
+                        nest_ok = False         # a part outlived its owner: not an event of the nested model
             desc.append(('destroy', tops.index(t)))
+            tev.append(f'TDestroy {tops.index(t) + 3}%nat')
         t = None
     exp = {}
     scans = [scan_map(v) for v in maps]
-    for kind, attr in (('KEnt', 'ent_id'), ('KSolid', 'solid_id'), ('KFace', 'face_id')):
+    for kind, attr in (('KEnt', 'ent_id'), ('KSolid', 'solid_id'), ('KFace', 'face_id'), ('KGroup', 'group_id'), ('KVis', 'vis_id')):
         l = []
         for x in tr[kind]:
             l += [x.id, int(x.alive), int(x.inmap), x.home]
@@ -806,6 +928,7 @@ def gen_world_case(rng: random.Random, n_ev: int):
         exp[kind] = l
     for v in maps:
         del v.face_id.discard
+    ev['T'] = tev if nest_ok else None
     return ev, exp, desc, scans
 
 
@@ -814,12 +937,13 @@ def corr_world(ck: Ck) -> None:
     from harness.common import parse_coq_N_list
     n = ck.budget(120, 1500)
     cases = []
+    nested = []
     for i in range(n):
         ev, exp, desc, scans = gen_world_case(ck.rng, ck.rng.choice([4, 8, 14, 22]))
         ck.count('world_histories')
         for d in desc:
             ck.hist('world_events', d[0])
-        if any(d[0] == 'copy' and d[4] for d in desc):
+        if any(d[0] in ('copy', 'gcopy') and d[4] for d in desc):
             ck.seen(('world', tuple(desc)))
         for m, sc in enumerate(scans):
             for kind, what, vals in dup_report(sc):
@@ -828,10 +952,14 @@ def corr_world(ck: Ck) -> None:
                 ck.violation(f'xmap-{kind}-id-{what}', f'map {m}: {kind} IDs {what}: {vals} after a history over three maps',
                              {'world_history': desc, 'events_per_kind': ev,
                               'how': 'events are in the notation of SM/IdWorld.v; replay by the same calls on three VMF() objects'})
-        for kind in ('KEnt', 'KSolid', 'KFace'):
+        for kind in WORLD_KINDS:
             cases.append((kind, ev[kind], exp[kind], desc))
-    ck.sample({'world_history': cases[-3][3], 'events_per_kind': {c[0]: c[1] for c in cases[-3:]},
-               'impl(id,alive,inmap,home)*_then_next_ids': {c[0]: c[2] for c in cases[-3:]}})
+        if ev['T'] is not None:
+            nested.append((ev['T'], [exp[k] for k in ('KEnt', 'KSolid', 'KFace')], desc))
+            ck.count('nested_histories')
+    nk = len(WORLD_KINDS)
+    ck.sample({'world_history': cases[-nk][3], 'events_per_kind': {c[0]: c[1] for c in cases[-nk:]},
+               'impl(id,alive,inmap,home)*_then_next_ids': {c[0]: c[2] for c in cases[-nk:]}})
     bad = []
     for lo in range(0, len(cases), 300):
         part = cases[lo:lo + 300]
@@ -844,11 +972,33 @@ def corr_world(ck: Ck) -> None:
             return
         bad += [lo + i for i in parse_coq_N_list(vals[0])]
     ck.obligation('correspondence:world', not bad,
-                  f'{len(cases)} per-kind event streams of {n} histories over three maps, model wrun vs real VMF/Entity/Solid/Side/gc: {len(bad)} disagreements')
+                  f'{len(cases)} per-kind event streams of {n} histories over three maps, model wrun vs real VMF/Entity/Solid/Side/EntityGroup/VisGroup/gc: {len(bad)} disagreements')
     if bad:
         c = min((cases[i] for i in bad), key=lambda c: len(c[1]))
         ck.tie_broken.append('correspondence multi-map lifecycle (SM/IdWorld.v wrun vs copy()/add/remove/__del__ over three maps)')
         ck.extra['world_disagreement'] = {'kind': c[0], 'events': c[1], 'impl': c[2], 'history': c[3]}
+    # the same histories as bundled events on top-level objects: the model (SM/IdNest.v) decides which constructor /
+    # copy / remove / destructor calls happen for the parts, in which order and with which desired IDs
+    ck.sample({'nested_events': nested[-1][0], 'impl_per_kind(id,alive,inmap,home)*_then_next_ids': nested[-1][1]})
+    bad = []
+    for lo in range(0, len(nested), 150):
+        part = nested[lo:lo + 150]
+        lit = coq_list(f'({coq_list(t)}, (({coq_Z_list(e[0])}, {coq_Z_list(e[1])}), {coq_Z_list(e[2])}))' for t, e, _ in part)
+        vals = ck.coq_eval(IMPORTS, ['bad_idx (fun c : list tev * ((list Z * list Z) * list Z) => match tfull (fst c) with (a, b, f) => '
+                                     f'andb (andb (zl_eqb a (fst (fst (snd c)))) (zl_eqb b (snd (fst (snd c))))) (zl_eqb f (snd (snd c))) end) 0 {lit}'],
+                           name='nested', preamble=WORLD_PRE)
+        if vals is None:
+            ck.obligation('correspondence:nested', False, 'model could not be evaluated')
+            ck.tie_broken.append('correspondence nested objects: model evaluation failed')
+            return
+        bad += [lo + i for i in parse_coq_N_list(vals[0])]
+    ck.obligation('correspondence:nested', not bad,
+                  f'{len(nested)} histories of bundled events on entities / brush entities / world brushes over three maps, model trun '
+                  f'(parts, order and desired IDs decided by the model) vs the implementation: {len(bad)} disagreements')
+    if bad:
+        c = min((nested[i] for i in bad), key=lambda c: len(c[0]))
+        ck.tie_broken.append('correspondence nested objects (SM/IdNest.v trun vs Entity/Solid/Side constructors, copy(), remove, __del__)')
+        ck.extra['nested_disagreement'] = {'events': c[0], 'impl': c[1], 'history': c[2]}
 
 
 # ------------------------------------------------------------------------------------------------ nav-node IDs
@@ -1165,13 +1315,15 @@ def run(ck: Ck) -> None:
     ck.rule = ('IDMan: random operation sequences over a small ID range (collisions frequent) from IDMan(existing), non-trivial = '
                'more than 3 distinct results; lifecycle: random histories of create/copy/cross-map copy/collapse_one/remove/re-add/gc/'
                'node edits over 7 object kinds, non-trivial = contains create and remove; world: histories over three maps of point '
-               'entities, brush entities and world brushes (nested solids and faces get their own event streams), non-trivial = '
-               'contains an explicit cross-map or same-map copy(vmf_file=...); node: histories of the nodeid keyvalue, non-trivial = '
+               'entities, brush entities, world brushes, brush groups and visgroup trees (every object gets its events in the stream of '
+               'its kind; the entity/brush/face part also runs as bundled events on top-level objects), non-trivial = '
+               'contains an explicit cross-map or same-map copy(<map>); node: histories of the nodeid keyvalue, non-trivial = '
                'at least two of set/delete/remove; parse: generated VMF documents whose ids are drawn from a small pool with '
                'missing/0/negative/colliding values, non-trivial = at least two kinds with different desired ids; fixups: random '
-               'init lists with colliding/non-positive indexes followed by set/del, non-trivial = at least two variables left; '
+               'init lists with colliding/non-positive indexes followed by set/setdefault/update, del/pop, clear, Entity.copy rebuilds and '
+               'copy/deepcopy/pickle, directly or through an Entity, non-trivial = at least two variables left; '
                'distinct by full sequence / text')
-    ck.trusted.append('hand-written models SM/IdMan.v, SM/IdLife.v, SM/IdWorld.v, SM/IdNode.v (tied by differential correspondence on every run)')
+    ck.trusted.append('hand-written models SM/IdMan.v, SM/IdLife.v, SM/IdFixupHist.v, SM/IdWorld.v, SM/IdNest.v, SM/IdNode.v (tied by differential correspondence on every run)')
     ck.assumptions.append('objects are added to the map they were constructed for (VMF.add_ent docstring); Entity._keys is only written through the mapping API')
     ok_t = ck.translate('IdSites_gen', c08_sites.translate)
     side = ck.extra.get('translated', {}).get('IdSites_gen', {})
@@ -1221,9 +1373,11 @@ def run(ck: Ck) -> None:
             ck.explain(f'instance:{kind}_released_only_by_destructor')
             ck.explain('instance:each_class_uses_the_manager_of_its_kind')
             ck.explain('correspondence:world')
+            ck.explain('correspondence:nested')
         if has('xmap-' + kind + '-id-'):
             ck.explain(f'instance:{name}_copies_allocate_in_destination_map')
             ck.explain('correspondence:world')
+            ck.explain('correspondence:nested')
     if has('fixup-index'):
         ck.explain('instance:fixup_constructor_tests_positivity')
         ck.explain('instance:fixup_set_searches_from_1')
